@@ -136,7 +136,7 @@ class Acc(object):
                 self.samples.append(case)
 
     def violation(self, prop, check, case, signature, observed=None, expected=None, note=None):
-        key = json.dumps(signature, sort_keys=True)
+        key = json.dumps(signature, sort_keys=True) + '|' + str(check)     # cap per signature and sub-check
         self._sig_seen[key] += 1
         self.counts['violating_cases'] += 1
         if self._sig_seen[key] > MAX_VIOL_PER_SIG:
@@ -291,7 +291,17 @@ def run_check(mod, tier, seed):
         k = json.dumps(v['signature'], sort_keys=True)
         by_sig.setdefault(k, []).append(v)
     for k in by_sig:
-        by_sig[k].sort(key=lambda v: len(json.dumps(v['case'], default=repr)))
+        # shortest first, but interleave the sub-checks that reported it (a history-dependent case from one family
+        # must not crowd out a self-contained case from another)
+        groups = collections.OrderedDict()
+        for v in sorted(by_sig[k], key=lambda v: len(json.dumps(v['case'], default=repr))):
+            groups.setdefault(v['check'], []).append(v)
+        inter = []
+        while any(groups.values()):
+            for g in groups.values():
+                if g:
+                    inter.append(g.pop(0))
+        by_sig[k] = inter
 
     lines = []
     n_unknown = 0
@@ -302,7 +312,7 @@ def run_check(mod, tier, seed):
         # interpreter: try a few more candidates of the same signature before giving up
         confirmed = None
         tried = []
-        for v in cands[:8]:
+        for v in cands[:16]:
             path = write_replay(v)
             ok, out = confirm_in_fresh_interpreter(path)
             tried.append((path, out))
